@@ -99,9 +99,11 @@ def judge(prop, fam, opts, script, r, res, ctx, levels=None):
                     if pl[1] in stack: stack.remove(pl[1])
             elif kind == 'PRE':
                 pre.setdefault(pl[0], []).append(pl[2])
+            elif kind == 'CHECK' and pl[0] == 'begin':
+                ci += 1      # a check-sat answered from a remembered unsat frame returns before its 'end' line: count the begins
             elif kind == 'CHECK' and pl[0] == 'end':
-                if levels is None or ci >= len(levels): ci += 1; continue
-                A = levels[ci]; ci += 1
+                if levels is None or ci < 1 or ci > len(levels): continue
+                A = levels[ci - 1]
                 OUT = [f for fid in stack for f in pre.get(fid, [])]
                 cov['checks_judged'] += 1
                 res['distinct'].append((fam.name, tuple(sorted(A)), tuple(sorted(OUT))))
